@@ -782,6 +782,24 @@ def run_world(case, stats, record=None):
             case['schedule'] = cres['recorded']
         info.update(steps=cres['steps'], switches=cres['switches'],
                     both=cres['both'], recorded=cres['recorded'])
+        def alone_can_give(si, di, want):
+            """Does the evaluation, run ALONE, also produce `want` when the
+            heap is laid out differently?  (A result set that holds an
+            identity-hashed object is walked in address order: which of two
+            failing members the finalizer meets first, or the order of a set
+            turned into a list, is not a function of the inputs.)"""
+            for i in range(8):
+                def one(i=i):
+                    junk = [bytearray(24 + 8 * (i % 7))
+                            for _ in range(i * 3 + 1)]
+                    junk2 = [object() for _ in range(997 * (i % 3))]
+                    o = outcome_of(lambda: evaluate(si, di))
+                    del junk, junk2
+                    return o
+                if core.fork_call(one) == want:
+                    return True
+            return False
+
         def compare(cres):
             out = []
             results = cres['results']
@@ -790,6 +808,22 @@ def run_world(case, stats, record=None):
                     if results[t] is None or results[t][j] != base[t][j]:
                         if (t, j) in unstable:
                             stats.inc('nd.unstable_alone_skipped')
+                            continue
+                        if results[t] is not None and \
+                                base[t][j][0] == 'raised' and \
+                                results[t][j][0] == 'raised' and \
+                                base[t][j][1] != results[t][j][1]:
+                            # two different errors: which of two failing
+                            # members of a result set the finalizer meets
+                            # first depends on the addresses of identity-
+                            # hashed members, also when run alone - never a
+                            # verdict (as in C09)
+                            stats.inc('nd.different_errors_skipped')
+                            continue
+                        if results[t] is not None and alone_can_give(
+                                si, di, results[t][j]):
+                            unstable.add((t, j))
+                            stats.inc('nd.alone_outcome_varies_skipped')
                             continue
                         out.append({
                             'key': 'C18:result-differs-from-run-alone',
